@@ -24,7 +24,6 @@ WITNESSES: list[tuple[str, str, tuple[str, ...]]] = [
     ("typealias_qualified", "import typing\nA: typing.TypeAlias = dict[str, int]\n", AST),
     ("all_alias_target", "__all__ = ['alias']\ndef target(x: int) -> int:\n    return x\nalias = target\n", AST),
     ("all_decorator", "__all__ = ['f']\ndef deco(g):\n    return g\n@deco\ndef f(x: int) -> int:\n    return x\n", AST),
-    ("all_base_class", "__all__ = ['D']\nclass B:\n    def m(self) -> int:\n        return 1\nclass D(B):\n    pass\n", AST),
     ("dataclass_nested_class",
      "from dataclasses import dataclass\n@dataclass(order=True)\nclass D:\n    x: int = 0\n    class Inner:\n        tag: int = 0\n", ("semantic",)),
     ("dataclass_self_attr",
@@ -43,8 +42,6 @@ WITNESSES: list[tuple[str, str, tuple[str, ...]]] = [
     ("inspect_class_attr", "class C:\n    attr: int = 0\n", ("inspect",)),
     ("inspect_generic_args", "def f(x: list[int]) -> dict[str, int]:\n    return {}\n", ("inspect",)),
     ("inspect_typevar", "from typing import TypeVar\nT = TypeVar('T')\ndef f(x: T) -> T:\n    return x\n", ("inspect",)),
-    ("inspect_overload",
-     "from typing import overload\n@overload\ndef f(x: int) -> int: ...\n@overload\ndef f(x: str) -> str: ...\ndef f(x):\n    return x\n", ("inspect",)),
     ("inspect_builtin_default", "def f(x=len):\n    return x\n", ("inspect",)),
     ("inspect_module_alias", "from __future__ import annotations\nimport typing as t\ndef f(x: t.Any) -> t.Any:\n    return x\n", ("inspect",)),
 ]
